@@ -61,6 +61,73 @@ theorem delivered_chunking_independent (up up' : Bool) (st st' : Stats) (s s' : 
     (halfPipe up st s).delivered = (halfPipe up' st' s').delivered := by
   rw [delivered_complete_until_fault up st s hw hd hc, delivered_complete_until_fault up' st' s' hw' hd' hc', h]
 
+/-! ### a read that returns neither bytes nor an indication is not an end
+
+`io.Reader` allows `Read` to return `(0, nil)` ("nothing happened"); connections wrapped by a framing
+transport do it when a frame carries no payload.  The loop of `halfPipe` leaves only through `er != nil`,
+`ew != nil` or a failing deadline call, so such a read changes nothing: the direction goes on reading, and
+what the source delivers afterwards is relayed.  (The oracle of the harness states the same from the
+script: the source's stream ends at its first end/error indication, nowhere else.) -/
+
+/-- a read that says nothing: `(0, nil)` — no bytes, no end / error indication -/
+def silent (r : ReadRes) : Bool := r.bytes.isEmpty && r.err.isNone
+
+theorem allBytes_consumed_drop_silent (rs : List ReadRes) :
+    allBytes (consumed (rs.filter (fun r => !silent r))) = allBytes (consumed rs) := by
+  induction rs with
+  | nil => rfl
+  | cons r rs ih =>
+    by_cases hs : silent r = true
+    · have h := hs
+      simp only [silent, Bool.and_eq_true, List.isEmpty_iff, Option.isNone_iff_eq_none] at h
+      simp [List.filter, hs, consumed, h.1, h.2, ih]
+    · have hs' : silent r = false := by simpa using hs
+      by_cases he : r.err.isSome = true
+      · simp [List.filter, hs', consumed, he]
+      · simp [List.filter, hs', consumed, he, ih]
+
+theorem consumed_errfree_append (pre rest : List ReadRes) (hpre : ∀ r ∈ pre, r.err = none) :
+    consumed (pre ++ rest) = pre ++ consumed rest := by
+  induction pre with
+  | nil => rfl
+  | cons r pre ih =>
+    have hr : r.err = none := hpre r (by simp)
+    simp [consumed, hr, ih (fun x hx => hpre x (by simp [hx]))]
+
+/-- **Silent reads are erasable**: striking every `(0, nil)` read out of a fault-free script — wherever
+they stand, however many — leaves the delivered stream unchanged.  Equivalently: inserting them anywhere
+loses nothing. -/
+theorem silent_reads_erasable (up : Bool) (st : Stats) (s : Script)
+    (hw : noWriteFault s.writes) (hd : allDlOk s.dls) (hc : conforming s.reads) :
+    (halfPipe up st { s with reads := s.reads.filter (fun r => !silent r) }).delivered =
+      (halfPipe up st s).delivered := by
+  have hc' : conforming (s.reads.filter (fun r => !silent r)) :=
+    fun r hr => hc r (List.mem_filter.mp hr).1
+  rw [delivered_complete_until_fault up st s hw hd hc,
+    delivered_complete_until_fault up st { s with reads := s.reads.filter (fun r => !silent r) } hw hd hc']
+  exact allBytes_consumed_drop_silent s.reads
+
+/-- **A `(0, nil)` read in mid-stream does not end the direction**: error-free reads `pre`, a read that
+returns nothing and no error, then whatever the source goes on to do (`rest`) — all of `pre` and everything
+`rest` delivers up to its own first end/error indication arrive. -/
+theorem silent_read_does_not_end_the_stream (up : Bool) (st : Stats) (pre rest : List ReadRes)
+    (ws : List WriteRes) (ds : List DlRes) (cs cd : Option Err)
+    (hpre : ∀ r ∈ pre, r.err = none)
+    (hw : noWriteFault ws) (hd : allDlOk ds) (hc : conforming (pre ++ ⟨[], none⟩ :: rest)) :
+    (halfPipe up st ⟨pre ++ ⟨[], none⟩ :: rest, ws, ds, cs, cd⟩).delivered =
+      allBytes pre ++ allBytes (consumed rest) := by
+  rw [delivered_complete_until_fault up st _ hw hd hc]
+  show allBytes (consumed (pre ++ ⟨[], none⟩ :: rest)) = _
+  rw [consumed_errfree_append pre _ hpre]
+  simp [consumed, allBytes_append]
+
+/-- the demonstration shape: a request line, a frame without payload, the rest of the request, EOF -/
+def exSilent : Script :=
+  { reads := [⟨[71, 69, 84], none⟩, ⟨[], none⟩, ⟨[72, 111], none⟩, ⟨[], some .eof⟩], writes := [], dls := [] }
+
+example : (halfPipe true {} exSilent).delivered = [71, 69, 84, 72, 111] ∧
+    nReads (halfPipe true {} exSilent).trace = 4 := by decide
+
 /-- **Reported byte count = bytes actually delivered**, for every script (short writes and writes that
 return `n > 0` with an error included). -/
 theorem stats_equal_delivered (up : Bool) (st : Stats) (s : Script) :
